@@ -15,6 +15,7 @@ Extended program syntax (superset of scope_gen's):
   ('setb', x, body[, filt])                            filt: 'u' | 'l' | ('default', e) | ('rep', e)
   ('filt', filt, body)                                 filt as above: {% filter replace('', e) %}
   ('break',) ('continue',) ('loopcall', e)             {% break %} {% continue %} {{ loop(e) }}
+  ('calla', x, attr, [e..])                            {{ x.attr(e, ..) }}   (a macro stored in a namespace attribute)
   expr ('attr', 'loop', a)  a in index index0 first last length revindex
 """
 from __future__ import annotations
@@ -154,6 +155,8 @@ def mentions(name, body):
             return True
         if k == "loopcall" and (name == "loop" or ex(s[1])):
             return True
+        if k == "calla" and (s[1] == name or any(ex(e) for e in s[3])):
+            return True
     return False
 
 
@@ -163,6 +166,9 @@ class Ref:
         self.priv = priv
         self.depth = 0
         self.steps = 0
+        self.dead = set()       # ids of scopes that were left (the dicts are kept alive in self.kept)
+        self.kept = []
+        self.escaped = False    # a macro was called after a scope of its defining chain had been left
 
     # ------------------------------------------------------------ names
     def lookup(self, env, x):
@@ -251,8 +257,10 @@ class Ref:
             self.depth += 1
             if self.depth > 120:
                 raise RecursionError()
+            if any(id(x) in self.dead for x in f.env):
+                self.escaped = True
             try:
-                return self.block([sc] + f.env, f.body)
+                return self.scoped(sc, f.env, f.body)
             finally:
                 self.depth -= 1
         if f is NSCTOR:
@@ -274,6 +282,16 @@ class Ref:
             raise ValueError("unpack")
         for x, w in zip(target, vals):
             env[0][x] = w
+
+    def leave(self, sc):
+        self.dead.add(id(sc))
+        self.kept.append(sc)
+
+    def scoped(self, sc, env, body):
+        try:
+            return self.block([sc] + env, body)
+        finally:
+            self.leave(sc)
 
     def block(self, env, body):
         out = []
@@ -303,7 +321,9 @@ class Ref:
                 if test is not None:
                     sc = {}
                     self.assign([sc], target, item)
-                    if not bool(self.ev([sc] + env, test)):
+                    keep = bool(self.ev([sc] + env, test))
+                    self.leave(sc)
+                    if not keep:
                         continue
                 yield item
 
@@ -320,7 +340,7 @@ class Ref:
             sc["loop"] = lp
             ran = True
             try:
-                out.append(self.block([sc] + env, body))
+                out.append(self.scoped(sc, env, body))
             except _Continue as c:
                 out.append(c.args[0])
                 continue
@@ -328,7 +348,7 @@ class Ref:
                 out.append(b.args[0])
                 break
         if not ran and els:
-            out.append(self.block([{}] + env, els))
+            out.append(self.scoped({}, env, els))
         return "".join(out)
 
     def stmt(self, env, s):
@@ -386,9 +406,12 @@ class Ref:
             raise TypeError("not callable")
         if k == "setb":
             inner = [{}] + env
-            text = self.block(inner, s[2])
-            if len(s) > 3 and s[3] is not None:
-                text = self.apply_filter(s[3], text, inner)
+            try:
+                text = self.block(inner, s[2])
+                if len(s) > 3 and s[3] is not None:
+                    text = self.apply_filter(s[3], text, inner)
+            finally:
+                self.leave(inner[0])
             env[0][s[1]] = text
             return ""
         if k == "with":
@@ -396,16 +419,23 @@ class Ref:
             sc = {}
             for (x, _), v in zip(s[1], vals):
                 sc[x] = v
-            return self.block([sc] + env, s[2])
+            return self.scoped(sc, env, s[2])
         if k == "filt":
             inner = [{}] + env
-            return self.apply_filter(s[1], self.block(inner, s[2]), inner)
+            try:
+                return self.apply_filter(s[1], self.block(inner, s[2]), inner)
+            finally:
+                self.leave(inner[0])
         if k == "macro":
             env[0][s[1]] = RMacro("macro", s[1], s[2], s[3], env, mentions("caller", s[3]))
             return ""
         if k == "callo":
             f = self.lookup(env, s[1])
             args = [self.ev(env, e) for e in s[2]]
+            return str(self.call(f, args, None))
+        if k == "calla":
+            f = self.getattr(self.lookup(env, s[1]), s[2])
+            args = [self.ev(env, e) for e in s[3]]
             return str(self.call(f, args, None))
         if k == "callb":
             cl = RMacro("caller", None, s[1], s[4], env, mentions("caller", s[4]))
@@ -544,6 +574,8 @@ def s2_src(s):
         return "{% macro " + s[1] + "(" + ", ".join(s[2]) + ") %}" + p2_src(s[3]) + "{% endmacro %}"
     if k == "callo":
         return "{{ " + s[1] + "(" + ", ".join(e2_src(e) for e in s[2]) + ") }}"
+    if k == "calla":
+        return "{{ " + s[1] + "." + s[2] + "(" + ", ".join(e2_src(e) for e in s[3]) + ") }}"
     if k == "callb":
         hd = "{% call" + ("(" + ", ".join(s[1]) + ")" if s[1] else "") + " "
         return hd + s[2] + "(" + ", ".join(e2_src(e) for e in s[3]) + ") %}" + p2_src(s[4]) + "{% endcall %}"
@@ -665,6 +697,12 @@ class EGen(G.SGen):
             xs = r.sample(self.pool, 2)
             e = ("tup", [self.expr(1, in_loop), self.expr(1, in_loop)]) if r.random() < 0.85 else ("n", self.name())
             return ("set", xs, e), 1
+        if macros and "n" in self.pool and 0.93 < k < 0.965:
+            # a macro object stored in a namespace attribute ...
+            return ("seta", "n", r.choice(["v", "w"]), ("n", r.choice(macros)[0])), 1
+        if "n" in self.pool and self.ns_made and k >= 0.965:
+            # ... and called through it (possibly after the scope that defined the macro has ended)
+            return ("calla", "n", r.choice(["v", "w"]), [self.expr(1, in_loop) for _ in range(r.randint(0, 1))]), 1
         if depth > 0 and budget > 1 and k < 0.24:
             # tuple target / recursive loop
             b = budget - 1
@@ -717,12 +755,54 @@ class EGen(G.SGen):
             p.insert(r.randint(0, len(p)), hdr)
             if hdr[0] in ("setb", "nsnew"):
                 p.append(say(("n", y)) if hdr[0] == "setb" else say(("attr", y, "v")))
+        if "n" in self.pool and r.random() < 0.35:
+            p = self.export_macros(p)
         # late assignments, at the end of the top-level scope, of names used earlier (every position a name can
         # be read in is followed by a later store of that name in the same scope)
         for x in self.pool:
             if self.r.random() < 0.3 and mentions(x, p):
                 p.append(("set", x, self.expr(1)) if self.r.random() < 0.7 else ("setb", x, [("out", [self.expr(1)])]))
         return p
+
+    def export_macros(self, p):
+        """macros defined in nested scopes are stored in attributes of a top-level namespace and called through
+        it later — inside the defining scope, in a sibling scope, after the scope has ended"""
+        r = self.r
+        calls = []
+
+        def walk(body, nested):
+            out = []
+            for s in body:
+                k = s[0]
+                if k == "if":
+                    s = ("if", s[1], walk(s[2], nested), [("if", e[1], walk(e[2], nested), [], []) for e in s[3]], walk(s[4], nested))
+                elif k == "for":
+                    s = s[:4] + (walk(s[4], True), walk(s[5], True)) + tuple(s[6:])
+                elif k in ("with", "filt"):
+                    s = (k, s[1], walk(s[2], True))
+                elif k == "setb":
+                    s = (k, s[1], walk(s[2], True)) + tuple(s[3:])
+                elif k == "macro":
+                    s = ("macro", s[1], s[2], walk(s[3], True))
+                elif k == "callb":
+                    s = s[:4] + (walk(s[4], True),)
+                out.append(s)
+                if k == "macro" and nested and r.random() < 0.6:
+                    a = r.choice(["v", "w"])
+                    out.append(("seta", "n", a, ("n", s[1])))
+                    call = ("calla", "n", a, [self.expr(1) for _ in range(r.randint(0, len(s[2])))])
+                    calls.append(call)
+                    if r.random() < 0.3:
+                        out.append(call)
+            return out
+
+        q = walk(p, False)
+        if not calls:
+            return p
+        q.insert(0, ("nsnew", "n", []))
+        for c in calls:
+            q.insert(r.randint(1, len(q)), c) if r.random() < 0.5 else q.append(c)
+        return q
 
     def dspec(self, avoid=()):
         r = self.r
@@ -820,9 +900,9 @@ def unsafe_names(p):
                     ex(e, ld)
                 store(s[1], root)
             elif k == "setb":
-                walk(s[2], False)
                 if len(s) > 3 and isinstance(s[3], (tuple, list)):
-                    ex(s[3][1], inner_loaded)
+                    ex(s[3][1], ld)      # read by the enclosing frame before the target is stored (/repo 1b7cd78)
+                walk(s[2], False)
                 store(s[1], root)
             elif k == "with":
                 for _, e in s[1]:
@@ -844,6 +924,10 @@ def unsafe_names(p):
                 for e in s[3]:
                     ex(e, ld)
                 walk(s[4], False)
+            elif k == "calla":
+                ld.add(s[1])
+                for e in s[3]:
+                    ex(e, ld)
 
     walk(p, True)
     return inner_st | unsafe
@@ -918,6 +1002,8 @@ def rename2(p, m):
             return ("macro", f(s[1]), [f(x) for x in s[2]], rename2(s[3], m))
         if k == "callo":
             return ("callo", f(s[1]), [ex(e) for e in s[2]])
+        if k == "calla":
+            return ("calla", f(s[1]), s[2], [ex(e) for e in s[3]])
         if k == "callb":
             return ("callb", [f(x) for x in s[1]], f(s[2]), [ex(e) for e in s[3]], rename2(s[4], m))
         return s
